@@ -1,9 +1,9 @@
 #!/bin/bash
 # seedproc.sh <prop> <k> [tier] — confirm seed k of the round-3 sub-agent for <prop> in its scratch worktree, then run the check against it
 p=$1; k=$2; tier=${3:-quick}
-wt=/tmp/seed3-$p; o=$wt/_out
+wt=/tmp/${ROUND:-seed3}-$p; o=$wt/_out
 dir=$(head -1 $o/notes$k.md | sed -n 's/^dir: *//p' | tr -d '`' | sed 's:/*$::')
 [ -z "$dir" ] && { echo "no dir line in notes$k.md: $(head -1 $o/notes$k.md)"; exit 2; }
-cp $o/change$k.diff /tmp/seed3-$p-change$k.diff; cp $o/demo${k}_test.go /tmp/seed3-$p-demo${k}_test.go
-/verif/seedtool.sh confirm $wt /tmp/seed3-$p-change$k.diff /tmp/seed3-$p-demo${k}_test.go $dir 2>&1 | grep CONFIRM
-/verif/seedtool.sh detect /tmp/seed3-$p-change$k.diff $p $tier 2>&1 | grep -E "^(VIOLATION|DETECT|C[0-9][0-9] tier)" | cut -c1-300
+cp $o/change$k.diff /tmp/${ROUND:-seed3}-$p-change$k.diff; cp $o/demo${k}_test.go /tmp/${ROUND:-seed3}-$p-demo${k}_test.go
+/verif/seedtool.sh confirm $wt /tmp/${ROUND:-seed3}-$p-change$k.diff /tmp/${ROUND:-seed3}-$p-demo${k}_test.go $dir 2>&1 | grep CONFIRM
+/verif/seedtool.sh detect /tmp/${ROUND:-seed3}-$p-change$k.diff $p $tier 2>&1 | grep -E "^(VIOLATION|DETECT|C[0-9][0-9] tier)" | cut -c1-300
